@@ -219,6 +219,27 @@ fn judge_f64(st: &mut Stats, rng: &mut Rng, class: &str, d: &DM<Rat>, m1: usize,
             }
         }
         if sols.len() == 2 && sols[0] != sols[1] { st.violation("C04:solve:f64:padding-dependent", desc()); }
+        // the same system with every in-band entry and the right-hand side scaled by 2^-1030 (entries k*2^-1030 are still
+        // exactly representable, pivots are subnormal): the solution is mathematically unchanged; demanded: finite and
+        // within the accuracy that 44-bit subnormal arithmetic allows (a reciprocal of a subnormal pivot overflows)
+        if rng.chance(0.1) && class != "tiny-subdiagonal" {
+            let tiny = |v: f64| v * 2f64.powi(-515) * 2f64.powi(-515);
+            let mut bs = Banded::<f64>::new(n, m1, m2, 0.0);
+            for i in 0..n { for j in 0..n { if inband(i, j, m1, m2) { bs[(i, j)] = tiny(a[i][j]); } } }
+            let rs = Vector::create(rhs.iter().map(|v| tiny(*v)).collect::<Vec<f64>>());
+            st.eval();
+            if let (Outcome::Ok(x0), o) = (catch(|| b1.solve(&rr)), catch(|| bs.solve(&rs))) {
+                match o {
+                    Outcome::Ok(xs) => {
+                        let xn = x0.vec.iter().fold(0.0f64, |m, v| m.max(v.abs()));
+                        let dmax = x0.vec.iter().zip(&xs.vec).fold(0.0f64, |m, (p, q)| m.max((p - q).abs()));
+                        if !fl::all_finite(&xs.vec) || !(dmax <= 1e-2 * (1.0 + xn)) { st.violation("C04:solve:f64:subnormal-scale", format!("system scaled by 2^-1030: solve = {:?}, unscaled solution {:?}; {}", xs.vec, x0.vec, desc())); }
+                    }
+                    oo => st.violation("C04:solve:f64:subnormal-scale", format!("system scaled by 2^-1030: {}; {}", oo.describe(), desc())),
+                }
+            }
+            st.count("cases:f64:subnormal-scale");
+        }
         st.count(&format!("cases:f64:{}:solved", class));
     } else { st.count("skipped:float-kappa-too-large"); } }
     st.count(&format!("cases:f64:{}", class));
